@@ -17,6 +17,7 @@ import (
 	"fmt"
 	"math/rand"
 	"os"
+	"regexp"
 	"sort"
 	"strconv"
 	"strings"
@@ -412,6 +413,10 @@ func genExtended(r *rand.Rand, maxDepth, maxSize int) (string, []string) {
 		"if ( 1 == 2 ) { return 9; } else { trace(12); }\n", "if ( false ) { trace(13); }\n", "while ( 0 ) { trace(14); }\n",
 		"trace(3 - 5 + 10);\n", "trace(300 * 300 + 1);\n", "trace([1, 2 - 3 + 4]);\n", "trace(N * (300 * 300 + 1));\n", "trace(65535 + 1);\n", "trace(65534 + 1 - 1);\n",
 		"trace(7 / 2);\n", "trace(8 / 2 / 2);\n", "trace(2 - 3);\n", "trace(0 - 1 == -1);\n",
+		"if ( B0 ? true : false ) { trace(21); } else { trace(22); }\n", "if ( B1 ? false : true ) { trace(23); }\n", "if ( B2 ? B3 : false ) { trace(24); }\n",
+		"if ( (N > 0 ? 1 : 2) + 3 == 4 ) { trace(25); }\n", "trace((B0 ? 10 : 20) * 4);\n", "trace((B1 ? 7 : 9) == 9);\n", "v0 = 0;\nwhile ( v0 < 2 ? true : false ) { v0++; }\n",
+		"trace(8 - 4 / 0);\n", "trace(6 / 0 + 1);\n", "trace([1, 4 / 0]);\n", "trace(9 % 0);\n", "function never() { return 1 % 0; }\n",
+		"trace(!!N);\n", "trace(!!S);\n", "if ( !!L ) { trace(26); }\n", "trace(!(!M));\n",
 		"v0 += 1 + 2;\n", "v0 -= N * 2;\n", "v0 *= 2;\n", "v0 /= 1 + 1;\n", "v0 += (B0 ? 1 : 2);\n", "v0++;\n", "v0--;\n",
 		"function g24() { 24; }\ng24();\n", "function g280() { 280; }\ng280();\n", "function gv() { v0 = 1; }\ngv();\n",
 		"function gi(a) { if ( a > 1 ) { return 24; } }\ntrace(gi(2));\n",
@@ -662,5 +667,331 @@ func TestRAC_C18(t *testing.T) {
 			pv.Fails, pv.Kind, pv.Expected, pv.Got = true, v.Kind, v.Expected, v.Got
 		}
 		rep.Probes = append(rep.Probes, pv)
+	}
+}
+
+// ---- C08 -----------------------------------------------------------------------------------------------------
+// Bounded support for C08: the parser, the compiler and the optimizer run inside Prepare, which has no
+// recover, and are only partly under panic-freedom contracts.  Scripts of four kinds - generated valid
+// ones, the same with tokens deleted, duplicated or swapped, random sequences of the language's tokens,
+// and random bytes - go through Prepare (both modes), Execute, Run and Dump; a panic that reaches the
+// caller is a violation.
+
+var soupTokens = []string{"(", ")", "{", "}", "[", "]", ",", ";", ".", "..", "=", "+=", "-=", "*=", "/=", "==", "!=", "<", "<=", ">", ">=",
+	"+", "-", "*", "/", "%", "**", "!", "&&", "||", "~=", "!~", "?", ":", "++", "--", "√", "in",
+	"if", "else", "while", "for", "foreach", "function", "return", "switch", "case", "default", "local", "true", "false",
+	"a", "b", "f", "N", "S", "L", "0", "1", "2", "24", "70000", "1.5", `"s"`, `"a\"b"`, "'q'", "/x/", "/(?i)y/i", "// c\n", "#", "$", "@", "\\"}
+
+func splitTokens(src string) []string {
+	var out []string
+	cur := ""
+	flush := func() {
+		if cur != "" {
+			out = append(out, cur)
+			cur = ""
+		}
+	}
+	for _, r := range src {
+		switch {
+		case r == ' ' || r == '\n' || r == '\t':
+			flush()
+		case strings.ContainsRune("(){}[],;", r):
+			flush()
+			out = append(out, string(r))
+		default:
+			cur += string(r)
+		}
+	}
+	flush()
+	return out
+}
+
+func tryAPI(src string) (where string, what interface{}) {
+	where = "New"
+	defer func() {
+		if r := recover(); r != nil {
+			what = r
+		}
+	}()
+	for _, optimize := range []bool{true, false} {
+		e := New(src)
+		e.AddFunction("trace", func(args []object.Object) object.Object { return &object.Void{} })
+		e.AddFunction("id", func(args []object.Object) object.Object {
+			if len(args) != 1 {
+				return &object.Null{}
+			}
+			return args[0]
+		})
+		ctx, cancel := context.WithTimeout(context.Background(), 500*time.Millisecond)
+		e.SetContext(ctx)
+		where = fmt.Sprintf("Prepare(optimize=%v)", optimize)
+		var err error
+		if optimize {
+			err = e.Prepare()
+		} else {
+			err = e.Prepare([]byte{NoOptimize})
+		}
+		if err == nil {
+			for _, shape := range []int{0, 2} {
+				obj, _, _ := racObject(5, shape)
+				where = fmt.Sprintf("Execute(optimize=%v)", optimize)
+				e.Execute(obj)
+				where = fmt.Sprintf("Run(optimize=%v)", optimize)
+				e.Run(obj)
+			}
+			where = fmt.Sprintf("Dump(optimize=%v)", optimize)
+			e.Dump()
+		}
+		cancel()
+	}
+	return "", nil
+}
+
+func TestRAC_C08(t *testing.T) {
+	seed := envInt("VERIF_SEED", 0)
+	rep := &racReport{Property: "C08", Seed: seed, MaxDepth: envInt("RAC_DEPTH", 3), MaxSize: envInt("RAC_SIZE", 14)}
+	defer rep.write()
+	// Dump and the print built-ins write to standard output
+	if devnull, err := os.OpenFile(os.DevNull, os.O_WRONLY, 0); err == nil {
+		saved := os.Stdout
+		os.Stdout = devnull
+		defer func() { os.Stdout = saved }()
+	}
+	r := rand.New(rand.NewSource(int64(seed) + 8000))
+	n := envInt("RAC_N", 3000)
+	seen := map[string]bool{}
+	for i := 0; i < n; i++ {
+		var src string
+		switch i % 4 {
+		case 0:
+			src, _ = genExtended(r, 1+i%rep.MaxDepth, rep.MaxSize)
+		case 1:
+			// a valid script with a few tokens deleted, duplicated, swapped or replaced
+			base, _ := genExtended(r, 1+i%rep.MaxDepth, rep.MaxSize)
+			toks := splitTokens(base)
+			for k := 0; k < 1+r.Intn(3) && len(toks) > 1; k++ {
+				j := r.Intn(len(toks))
+				switch r.Intn(4) {
+				case 0:
+					toks = append(toks[:j], toks[j+1:]...)
+				case 1:
+					toks = append(toks[:j], append([]string{toks[j]}, toks[j:]...)...)
+				case 2:
+					l := r.Intn(len(toks))
+					toks[j], toks[l] = toks[l], toks[j]
+				default:
+					toks[j] = soupTokens[r.Intn(len(soupTokens))]
+				}
+			}
+			src = strings.Join(toks, " ")
+		case 2:
+			var toks []string
+			for k := 0; k < 2+r.Intn(12); k++ {
+				toks = append(toks, soupTokens[r.Intn(len(soupTokens))])
+			}
+			src = strings.Join(toks, " ")
+		default:
+			b := make([]byte, 1+r.Intn(24))
+			for k := range b {
+				b[k] = byte(r.Intn(256))
+			}
+			src = string(b)
+		}
+		rep.Programs++
+		rep.count(src)
+		rep.Runs++
+		where, what := tryAPI(src)
+		if what == nil {
+			continue
+		}
+		small := src
+		if i%4 != 3 {
+			small = shrinkLines(strings.Join(splitTokens(src), "\n")+"\n", func(s string) bool {
+				w, x := tryAPI(strings.ReplaceAll(s, "\n", " "))
+				return x != nil && w == where
+			})
+			small = strings.TrimSpace(strings.ReplaceAll(small, "\n", " "))
+			if _, x := tryAPI(small); x == nil {
+				small = src
+			}
+		}
+		key := where + "|" + fmt.Sprint(what)
+		if seen[key] {
+			continue
+		}
+		seen[key] = true
+		rep.Violations = append(rep.Violations, racVio{Kind: "panic-in-" + where, Script: small, Expected: "an error value or an ordinary result", Got: fmt.Sprintf("panic: %v", what)})
+		if len(rep.Violations) >= 12 {
+			break
+		}
+	}
+	for _, v := range rep.Violations {
+		t.Logf("RAC-VIOLATION kind=%s\nscript: %q\n%s", v.Kind, v.Script, v.Got)
+	}
+}
+
+// ---- C13 -----------------------------------------------------------------------------------------------------
+// Bounded support for C13: invalid fragments x enclosing contexts (to depth 2).  Prepare must return an
+// error for every combination - and must not panic (that part also serves C08).
+
+var invalidFragments = []string{
+	"1 = 2", `"a" = 3`, "3 += 4", "a[0] -= 1", "4 /= 2", "a.b = 1", "f(1) = 2", "[1] = 2", "true = 1", "a.b += 1", "-a = 1",
+	"a ? b : c ? d : e", "a ? (b ? 1 : 2) : 3", "a ? b ? 1 : 2 : 3",
+	`"unterminated`, "'unterminated", "(1 + ", "[1, ", `{"k": `, "f(1, ", "1 +", "* 2", "1 + + ", "#", "@x", "a ~", "a.(1=2)", `a.("f"=3)`,
+}
+
+var fragmentContexts = []string{
+	"%s;", "if ( %s ) { }", "if ( 1 ) { %s; }", "if ( 0 ) { } else { %s; }", "if ( 0 ) { } else if ( %s ) { }", "while ( %s ) { }", "while ( 0 ) { %s; }",
+	"foreach x in [1] { %s; }", "foreach x in %s { }", "function g() { %s; }", "function g() { return %s; }", "switch ( 1 ) { case %s { } }", "switch ( %s ) { default { } }",
+	"switch ( 1 ) { case 1 { %s; } }", "switch ( 1 ) { default { %s; } }", "v = %s;", "return %s;", "id(%s);", "id(1, %s);", "v = [%s];", "v = [1, %s];", `v = {"k": %s};`,
+	"v = L[%s];", "v = 1 ? %s : 2;", "v = 1 ? 2 : %s;", "v = (%s);", "v = !(%s);", "v = 1 + (%s);", "return id([%s])[0];",
+}
+
+func TestRAC_C13(t *testing.T) {
+	seed := envInt("VERIF_SEED", 0)
+	rep := &racReport{Property: "C13", Seed: seed, MaxDepth: 2}
+	defer rep.write()
+	if devnull, err := os.OpenFile(os.DevNull, os.O_WRONLY, 0); err == nil {
+		saved := os.Stdout
+		os.Stdout = devnull
+		defer func() { os.Stdout = saved }()
+	}
+	r := rand.New(rand.NewSource(int64(seed) + 13000))
+	nested := envInt("RAC_N", 1500) // number of random depth-2 combinations on top of the exhaustive depth-1 product
+	var cases []string
+	for _, f := range invalidFragments {
+		for _, c := range fragmentContexts {
+			cases = append(cases, strings.Replace(c, "%s", f, 1))
+		}
+	}
+	for i := 0; i < nested; i++ {
+		f := invalidFragments[r.Intn(len(invalidFragments))]
+		inner := fragmentContexts[r.Intn(len(fragmentContexts))]
+		outer := fragmentContexts[r.Intn(len(fragmentContexts))]
+		in := strings.TrimSuffix(strings.Replace(inner, "%s", f, 1), ";")
+		if !strings.Contains(outer, "{ %s; }") && !strings.HasPrefix(outer, "%s;") {
+			continue // statements nest in blocks only
+		}
+		cases = append(cases, "v = 1; "+strings.Replace(outer, "%s", in, 1)+" return v;")
+	}
+	seen := map[string]bool{}
+	for _, src := range cases {
+		rep.Programs++
+		rep.count(src)
+		for _, optimize := range []bool{true, false} {
+			rep.Runs++
+			var err error
+			var pan interface{}
+			func() {
+				defer func() { pan = recover() }()
+				e := New(src)
+				e.AddFunction("id", func(args []object.Object) object.Object { return &object.Null{} })
+				if optimize {
+					err = e.Prepare()
+				} else {
+					err = e.Prepare([]byte{NoOptimize})
+				}
+			}()
+			var v *racVio
+			switch {
+			case pan != nil:
+				v = &racVio{Kind: "prepare-panics", Script: src, Expected: "an error", Got: fmt.Sprintf("panic: %v", pan)}
+			case err == nil:
+				v = &racVio{Kind: "invalid-script-accepted", Script: src, Expected: "an error from Prepare", Got: fmt.Sprintf("Prepare(optimize=%v) accepted the script", optimize)}
+			}
+			if v != nil && !seen[v.Kind+src] && len(rep.Violations) < 40 {
+				seen[v.Kind+src] = true
+				rep.Violations = append(rep.Violations, *v)
+			}
+		}
+	}
+	for _, v := range rep.Violations {
+		t.Logf("RAC-VIOLATION kind=%s script=%q %s", v.Kind, v.Script, v.Got)
+	}
+}
+
+// ---- C14 (regexp literals) -------------------------------------------------------------------------------
+// Bounded support for C14 / C01: a regexp literal /P/flags denotes the pattern P with the flags i and m.
+// The lexer folds the flags into a "(?flags)" prefix, the parser splits a leading "(?...)" off again and
+// the compiler re-assembles it - a round trip no contract covers (strings are uninterpreted in the
+// verifier).  Here: patterns x flags x subjects, `S ~= /P/flags` and `S !~ /P/flags` against Go's regexp
+// package applied the way the match built-in applies it (per line, trimmed).
+
+func TestRAC_C14(t *testing.T) {
+	rep := &racReport{Property: "C14", Seed: envInt("VERIF_SEED", 0)}
+	defer rep.write()
+	patterns := []string{"ab", "^a", "b$", "a.c", "(?:ab|cd)e", "(?i:steve) kemp", "(ab)+", "(?:x)", "(?s:a.c)", "[a-c]+", `a\/b`, `\d+`, "(?P<n>a)b", "a|", "(?U)a+", "(?:)", "x(?:y)", "(ab|cd)e", "e$"}
+	flags := []string{"", "i", "m", "im", "mi"}
+	subjects := []string{"", "ab", "AB", "xe", "cde", "abe", "Steve Kemp", "steve kemp", "a/b", "a\nb", "x\nab", "  ab  ", "42", "ABC", "xy", "e", "aXc", "a\nc"}
+	for _, p := range patterns {
+		for _, f := range flags {
+			// in the language a backslash in a regexp literal takes the next character literally
+			unesc := ""
+			for i := 0; i < len(p); i++ {
+				if p[i] == '\\' && i+1 < len(p) {
+					i++
+				}
+				unesc += string(p[i])
+			}
+			want, err := regexp.Compile(unesc)
+			if f != "" {
+				fs := ""
+				if strings.Contains(f, "i") {
+					fs += "i"
+				}
+				if strings.Contains(f, "m") {
+					fs += "m"
+				}
+				want, err = regexp.Compile("(?" + fs + ")" + unesc)
+			}
+			if err != nil {
+				continue
+			}
+			for _, neg := range []bool{false, true} {
+				op := "~="
+				if neg {
+					op = "!~"
+				}
+				src := "return S " + op + " /" + p + "/" + f + ";"
+				for _, optimize := range []bool{true, false} {
+					e := New(src)
+					var perr error
+					if optimize {
+						perr = e.Prepare()
+					} else {
+						perr = e.Prepare([]byte{NoOptimize})
+					}
+					rep.Programs++
+					rep.count(src)
+					if perr != nil {
+						rep.Rejected++
+						continue
+					}
+					for _, subj := range subjects {
+						rep.Runs++
+						exp := false
+						for _, line := range strings.Split(subj, "\n") {
+							if want.MatchString(strings.TrimSpace(line)) {
+								exp = true
+							}
+						}
+						if neg {
+							exp = !exp
+						}
+						out, err := e.Execute(map[string]interface{}{"S": subj})
+						got := "error"
+						if err == nil {
+							got = showObj(out)
+						}
+						if got != "BOOLEAN:"+strconv.FormatBool(exp) && len(rep.Violations) < 12 {
+							rep.Violations = append(rep.Violations, racVio{Kind: "regexp-literal", Script: src, Input: fmt.Sprintf("S=%q optimize=%v", subj, optimize), Expected: "BOOLEAN:" + strconv.FormatBool(exp), Got: got})
+						}
+					}
+				}
+			}
+		}
+	}
+	for _, v := range rep.Violations {
+		t.Logf("RAC-VIOLATION kind=%s script=%q input=%s expected %s got %s", v.Kind, v.Script, v.Input, v.Expected, v.Got)
 	}
 }
